@@ -534,6 +534,11 @@ func (x *fnCtx) alloc(st *State, v *ssa.Alloc) *Val {
 	el := v.Type().(*types.Pointer).Elem()
 	r := x.newRef(st, "new."+sanitize(typeStr(el)))
 	out := &Val{T: v.Type(), L: []*Term{r}}
+	if _, ok := trackedElem(x.eng, v.Type()); ok {
+		st.assume(Eq(Select(typeHeap, r), IntLit(typeTag(v.Type()))))
+	} else if len(x.eng.tracked) > 0 {
+		st.assume(Eq(Select(typeHeap, r), IntLit(0)))
+	}
 	a := x.addrOf(out)
 	out.A = a
 	// zero-initialise
